@@ -9,9 +9,10 @@ Import ListNotations.
 Local Open Scope Z_scope.
 
 (** For ALL histories over read_batch k | read_batch k without levels | skip k | has_next | remaining |
-    re-creation (0 <= k < 2^31) and ALL cuts of a chunk into consistent pages (empty pages included), the column reader
-    (after the repairs "fix: column reader: copy packed values by non-null count" (DESIGN F5) and "fix: column
-    reader: a data page without values is passed over") delivers
+    re-creation (every k >= 0) and ALL cuts of a chunk into consistent pages (empty pages included), the column reader
+    (after the repairs "fix: column reader: copy packed values by non-null count" (DESIGN F5), "fix: column
+    reader: a data page without values is passed over" and "fix: column reader: read_batch with max_values >= 2^31")
+    delivers
     exactly what a position in the list of rows delivers. *)
 Theorem cursor_refines : forall (A : Type) (garbage : A) max_def zc (pages : list (@page A)) ops,
   chunk_ok max_def pages -> Forall op_ok ops ->
@@ -49,10 +50,10 @@ Print Assumptions cursor_refines_pinned_refuted.
 
 (** Batch reader (after the repair of DESIGN F7, commit "fix: batch reader: a zero-copy column delivers exactly the
     rows of the batch"): for every valid file, non-empty projection (indices may repeat; names are resolved to indices
-    before, src/metadata/schema.c), batch size 1 <= bs < 2^31 and I/O mode, the batches are exactly the blocks of at
+    before, src/metadata/schema.c), batch size bs >= 1 and I/O mode, the batches are exactly the blocks of at
     most bs rows of the projected columns, row group after row group, followed by END_OF_DATA. *)
 Theorem batch_refines : forall (A : Type) (garbage : A) m (f : @mfile A) proj bs,
-  proj <> [] -> Forall (rg_ok proj) f -> 0 < bs < 2^31 ->
+  proj <> [] -> Forall (rg_ok proj) f -> 0 < bs ->
   batches garbage true true m f proj bs =
   Ok (spec_batches (Z.to_nat bs) proj (table_of garbage f), E_END_OF_DATA).
 Proof. exact @batch_refines_proved. Qed.
@@ -60,14 +61,14 @@ Print Assumptions batch_refines.
 
 (** every batch has one number of rows in all of its columns (values and bitmap) *)
 Theorem batch_aligned : forall (A : Type) (garbage : A) m (f : @mfile A) proj bs,
-  proj <> [] -> Forall (rg_ok proj) f -> 0 < bs < 2^31 ->
+  proj <> [] -> Forall (rg_ok proj) f -> 0 < bs ->
   exists bl, batches garbage true true m f proj bs = Ok (bl, E_END_OF_DATA) /\ Forall batch_aligned_prop bl.
 Proof. exact @batch_aligned_proved. Qed.
 Print Assumptions batch_aligned.
 
 (** the concatenation of the batches of projected column j is the column-reader content of the file column it selects *)
 Theorem batch_concat : forall (A : Type) (garbage : A) m (f : @mfile A) proj bs,
-  proj <> [] -> Forall (rg_ok proj) f -> 0 < bs < 2^31 ->
+  proj <> [] -> Forall (rg_ok proj) f -> 0 < bs ->
   exists bl, batches garbage true true m f proj bs = Ok (bl, E_END_OF_DATA) /\
     forall j i, nth_error proj j = Some i -> batches_column bl j = table_column (table_of garbage f) i.
 Proof. exact @batch_concat_proved. Qed.
@@ -76,7 +77,7 @@ Print Assumptions batch_concat.
 (** the null bitmap separates null from non-null rows as the definition levels do: bit set = null, for every column,
     batch and I/O mode *)
 Theorem bitmap_iff_level : forall (A : Type) (garbage : A) m (f : @mfile A) proj bs,
-  proj <> [] -> Forall (rg_ok proj) f -> 0 < bs < 2^31 ->
+  proj <> [] -> Forall (rg_ok proj) f -> 0 < bs ->
   exists bl, batches garbage true true m f proj bs = Ok (bl, E_END_OF_DATA) /\
     forall j i, nth_error proj j = Some i ->
       concat (map (fun b => match nth_error (b_cols b) j with Some c => bc_bitmap c | None => [] end) bl) =
@@ -88,7 +89,7 @@ Print Assumptions bitmap_iff_level.
     OPTIONAL column, batch_size 3, mmap mode: the first batch has 2 rows in one column and 3 in the other. *)
 Theorem batch_aligned_pinned_refuted :
   exists (f : @mfile N) proj bs,
-    Forall (rg_ok proj) f /\ proj <> [] /\ 0 < bs < 2^31 /\
+    Forall (rg_ok proj) f /\ proj <> [] /\ 0 < bs /\
     (forall bl c, batches 0%N true false Mmap f proj bs = Ok (bl, c) -> ~ Forall batch_aligned_prop bl) /\
     batches 0%N true false Mmap f proj bs <> batches 0%N true false Fread f proj bs.
 Proof. exact batch_aligned_pinned_refuted_proved. Qed.
